@@ -329,10 +329,10 @@ def infer(dag, repair=None):
             unify_raised.append((repr(a), repr(b)))
             raise
     D.unify = spy
-    saved = None
-    if repair:
-        cls, attr, fn = _repairs()[repair]
-        saved = (cls, attr, cls.__dict__[attr])
+    saved = []
+    for r in ([repair] if isinstance(repair, str) else list(repair or [])):
+        cls, attr, fn = _repairs()[r]
+        saved.append((cls, attr, cls.__dict__[attr]))
         setattr(cls, attr, fn)
     try:
         with contextlib.redirect_stdout(io.StringIO()):
@@ -342,8 +342,8 @@ def infer(dag, repair=None):
                 return None, type(ex).__name__, unify_raised
     finally:
         D.unify = real
-        if saved:
-            setattr(saved[0], saved[1], saved[2])
+        for cls, attr, orig in reversed(saved):
+            setattr(cls, attr, orig)
     return table, None, unify_raised
 
 
@@ -443,9 +443,9 @@ def check_program(inp, repair=None):
                         mp, mk_ = lookup(table, m)
                         if not mp or not isinstance(mk_, D.SymbolKind) or not below(pre[m], mk_):
                             bad_ops.append(m)
-                    if bad_ops and (lk is None or below(vk, lk)):
-                        # the rule applied to this statement is fine for the values at hand; the table is off
-                        # because an operand already violates (or lacks) its own kind: reported there
+                    if bad_ops:
+                        # an operand already violates (or lacks) its own kind: that is reported where it happens,
+                        # what is computed from it is not reported again
                         info["inherited"] = info.get("inherited", 0) + 1
                         continue
                     seen.add((n, repr(vk)))
@@ -567,16 +567,22 @@ def fp_d12(inp):
                                and d["value_kind"].startswith(("Array", "UserType")) for _, _, _, d in fails)
 
 
-def repaired_away(inp, repair, or_rejected=False):
+def repaired_away(inp, repair, or_rejected=False, or_conflict=False):
     """the failure exists, and with the trial repair inference still succeeds and the failure is gone
     (or_rejected: or the repaired inference no longer accepts the program at all, so that the property's premise
-    "inference succeeds" only held because of the defect)"""
-    if not check(inp):
+    "inference succeeds" only held because of the defect; or_conflict: or what remains is the D5 situation - with
+    the repair the table sees non-unifiable kinds for the name, which it did not see before)"""
+    mine = check(inp)
+    if not mine:
         return False
     status, fails, info = check_program(dict(inp, clause=None, name=None), repair=repair)
     if status != "ok":
         return or_rejected and status == "no-inference"
-    return not any(c == inp.get("clause") and n == inp.get("name") for c, n, _, _ in fails)
+    rest = [d for c, n, _, d in fails if c == inp.get("clause") and n == inp.get("name")]
+    if not rest:
+        return True
+    return or_conflict and all(d.get("conflict") or d.get("isnan_call") for d in rest) and \
+        not any(d.get("conflict") for _, _, _, d in mine)
 
 
 def _assigning(inp, name):
@@ -588,6 +594,8 @@ def _mentions(inp, name, cls):
     from pymbolic import flatten
     for st in _assigning(inp, name):
         if isinstance(st, lang.Assign) and _has(flatten(st.rhs), cls):
+            return True
+        if isinstance(st, lang.AssignFunctionCall) and any(_has(flatten(a), cls) for a in st.parameters):
             return True
     return False
 
@@ -616,13 +624,12 @@ def fp_d11(inp):
         if not fails or not all(d["has_power"] or d["copy_of"] or d["isnan_call"] for _, _, _, d in fails) \
                 or not any(d["has_power"] or d["copy_of"] for _, _, _, d in fails):
             return False
-        if repaired_away(inp, "D11", or_rejected=any(d["has_power"] for _, _, _, d in fails)):
+        rej = any(d["has_power"] for _, _, _, d in fails)
+        if repaired_away(inp, "D11", or_rejected=rej, or_conflict=True):
             return True
-        # with a kind for the power the variable is seen to receive non-unifiable kinds (the D5 situation)
-        status, rfails, _ = check_program(dict(inp, clause=None, name=None), repair="D11")
-        rest = [d for c, n, _, d in rfails if c == inp["clause"] and n == inp.get("name")]
-        return status == "ok" and bool(rest) and all(d["conflict"] or d["isnan_call"] for d in rest) and \
-            not any(d["conflict"] for _, _, _, d in fails)
+        # the power sits in a sum that was also inferred from its known operands only: both repairs are needed
+        return not repaired_away(inp, "SUM", or_rejected=True, or_conflict=True) and \
+            repaired_away(inp, ("D11", "SUM"), or_rejected=rej, or_conflict=True)
     return False
 
 
@@ -685,7 +692,10 @@ def fp_partial_sum(inp):
     inp = origin(inp)
     if not inp.get("name") or not _mentions(inp, inp["name"], P.Sum):
         return False
-    return repaired_away(inp, "SUM", or_rejected=True)
+    if repaired_away(inp, "SUM", or_rejected=True, or_conflict=True):
+        return True
+    return not repaired_away(inp, "D11", or_rejected=True, or_conflict=True) and \
+        repaired_away(inp, ("D11", "SUM"), or_rejected=True, or_conflict=True)
 
 
 def fp_minmax(inp):
@@ -713,7 +723,7 @@ def fp_array_comparison(inp):
         return False
     inp = origin(inp)
     fails = check(inp)
-    return bool(fails) and all(d["comparison"] and d["inferred"] == repr(D.Boolean())
+    return bool(fails) and all(d["comparison"] and d["local_kind"] == repr(D.Boolean())
                                and d["value_kind"].startswith(("Array", "UserType")) for _, _, _, d in fails)
 
 
